@@ -50,11 +50,16 @@ def cases(tier, seed):
         g = dict(seed=rng.randrange(10 ** 9), ndims=3, nlevels=1 + i % 3, bf=bf,
                  names=["f0", "f1", "f2", "f3"][:rng.randint(2, 4)],
                  base_blocks=(1, 2) if bf >= 4 else (2, 3), payload="random")
-        cs.append({"kind": "user", "gen": g, "sel_seed": seed * 37 + i})
+        c = {"kind": "user", "gen": g, "sel_seed": seed * 37 + i}
+        if i % 7 == 3:      # binary files kept in a store and linked into the level directories (every other: levels too)
+            c["store"] = ["files", "files+levels"][(i // 7) % 2]
+        if i % 7 == 5:      # reached through `<symlinked directory>/../plt00020`
+            c["reach"] = True
+        cs.append(c)
     for i in range(n_thermo):
         g = dict(seed=rng.randrange(10 ** 9), ndims=3, nlevels=1 + i % 2, bf=2, base_blocks=(2, 3),
                  maxsz=4, payload="thermo")
-        cs.append({"kind": "thermo", "gen": g, "sel_seed": seed * 41 + i})
+        cs.append({"kind": "thermo", "gen": g, "sel_seed": seed * 41 + i, **({"store": "files"} if i % 4 == 1 else {})})
     if tier == "thorough":      # an OUTPUT binary file larger than 2 GiB (a many-component recipe): 2 GB written, ~30 s
         cs.append({"kind": "huge_output", "sel_seed": seed * 43})
     return cs
@@ -286,6 +291,12 @@ def run_case(case, work, rec):
     path = os.path.join(work, "plt00020")
     gen.write_plotfile(m, path, ref_ratio_extra=rng.choice([0, 0, 1, 3]), trailing_blank=rng.random() < 0.7,
                        close_blank=rng.random() < 0.3, floatfmt=rng.choice(["repr", "17g"]))
+    if case.get("store"):
+        workload.to_store(path, level_links="levels" in case["store"])
+        rec.count("input_with_linked_binary_files")
+    if case.get("reach"):
+        path = workload.reach_link_dotdot(work, path)
+        rec.count("input_reached_through_link_dotdot")
     names = m.names
     digest = common.sha(g)
     rec.sample({"plotfile": gen.describe(m), "kind": case["kind"]})
